@@ -34,6 +34,10 @@ structure Trigger where
 
 def Trigger.none : Trigger := {}
 
+/-- TRIGGER_FL_FILTER | DEPTH | TIME_FILTER | SIZE_FILTER: the trigger modifies the per-thread filter state -/
+def Trigger.changesState (t : Trigger) : Bool :=
+  t.filter.isSome || t.depth.isSome || t.time.isSome || t.size.isSome
+
 structure Cfg where
   maxStack : Nat := 1024       -- mcount_rstack_max
   depthOpt : Nat := 0xffff     -- mcount_depth (MCOUNT_DEFAULT_DEPTH)
@@ -44,6 +48,7 @@ structure Cfg where
   minSize : Nat := 0           -- mcount_min_size
   fast : Bool := false         -- DISABLE_MCOUNT_FILTER build
   enabled0 : Bool := true      -- !UFTRACE_TRACE_OFF
+  f4fixed : Bool := true       -- false: __mcount_entry before the repair of finding F4
   trig : Nat → Trigger := fun _ => {}
   fsize : Nat → Nat := fun _ => 16
 
@@ -254,8 +259,11 @@ def entry (cfg : Cfg) (k : Kind) (s : St) (addr now : Nat) : St × Bool :=
   let tr := c.2.2
   match k with
   | .pg =>
-    if c.1 != .in_ then (s1, false) else
-    let f : Frame := { addr := addr, start := now, depth := s1.recordIdx }
+    -- a call that is filtered out pushes no frame and its return address is not hijacked, unless
+    -- its trigger changed the filter state: then it gets a NORECORD frame (repair of finding F4;
+    -- `cfg.f4fixed = false` is the code before it, where nothing undid the change)
+    if c.1 == .rstack || (c.1 != .in_ && !(cfg.f4fixed && tr.changesState)) then (s1, false) else
+    let f : Frame := { addr := addr, start := now, depth := s1.recordIdx, norecord := c.1 != .in_ }
     (entryFilterRecord cfg { s1 with frames := f :: s1.frames } tr, true)
   | .cyg =>
     if c.1 == .rstack then ({ s1 with over := s1.over + 1 }, true) else
